@@ -48,7 +48,7 @@ def gen_type(ch, label, profile):
             ("Optional[float]", 0.5), ("Optional[bool]", 0.5), ("Literal['np', 'tf']", 1), ("Literal['a', 'b', 'c']", 0.5)]
     if profile == "wide":
         pool += [("List[str]", 1), ("List[int]", 0.5), ("Union[int, str]", 0.5), ("Tuple[int, int]", 0.3),
-                 ("Optional[List[str]]", 0.5), ("np.ndarray", 0.3), ("dict", 0.3)]
+                 ("Optional[List[str]]", 0.5), ("np.ndarray", 0.3)]
     return ch.weighted(label, pool)
 
 
@@ -69,9 +69,11 @@ def gen_desc(ch, profile="conservative", min_params=1, max_params=5, label="desc
         doc = ch.choice("%s.p%d.doc" % (label, i), PROSE).format(n=ch.choice("%s.p%d.noun" % (label, i), NOUNS))
         params.append({"name": name, "typ": typ, "doc": doc, "default": d})
     returns = None
-    if ch.chance(label + ".ret", 0.35):
-        returns = {"typ": ch.choice(label + ".ret.typ", ["int", "str", "float", "bool"]),
-                   "doc": "the resulting " + ch.choice(label + ".ret.noun", NOUNS), "default": None}
+    if ch.chance(label + ".ret", 0.12):
+        rtyp = ch.choice(label + ".ret.typ", ["int", "str", "float", "bool"])
+        # steering (DESIGN §7.2): a return entry without default expression trips a known emitter defect (F04)
+        rdef = gen_default(ch, rtyp, label + ".ret.def") if ch.chance(label + ".ret.hasdef", 0.9) else None
+        returns = {"typ": rtyp, "doc": "the resulting " + ch.choice(label + ".ret.noun", NOUNS), "default": rdef}
     doc = "%s the %s." % (ch.choice(label + ".verb", VERBS), ch.choice(label + ".noun", NOUNS))
     if ch.chance(label + ".doc2", 0.3):
         doc += " Uses the %s." % ch.choice(label + ".noun2", NOUNS)
